@@ -152,6 +152,7 @@ KNOWN_TEXT = {
     "D12": "chained string with a variable-length piece misses occurrences (unconfirmed-match pruning / first length only)",
     "D17": "fullword regular expression: only the engine's preferred match length is tested against the word boundaries",
     "D14": "zero-length matches of an expression that can match the empty string are reported",
+    "D47": "counted repeat with an unbounded maximum over a body that can match the empty string: endless fiber creation, every scan ends with ERROR_TOO_MANY_RE_FIBERS",
     "D40": "counted repeat {n,m} (m >= 3 or unbounded) over a body that can match the empty string loses matches: (a*){3,6} never matches",
 }
 
@@ -226,8 +227,9 @@ def c02(res, tier, seed):
         skipped = 0
         scan_errors = {}
         nchain = ncb = 0
+        vals_of = {}
         for ci in range(0, len(groups), 400):
-            run, per = func.run_rule_cases("asan", groups[ci:ci + 400], wd, "c02_%s_%d" % (variant, ci), extra_lines_before=["opt chainhook 1"],
+            run, per = func.run_rule_cases("asan", groups[ci:ci + 400], wd, "c02_%s_%d" % (variant, ci), extra_lines_before=["opt chainhook 1", "opt atomhook 1"],
                                            extra_cflags="-DYR_STRING_CHAINING_THRESHOLD=4" if variant == "chain4" else "")
             if not run.complete:
                 rp = yv.save_replay("C02", "crash_%s_%d" % (variant, ci), {"crash": yv.crash_summary(run), "script": run.script_path})
@@ -239,6 +241,16 @@ def c02(res, tier, seed):
                     skipped += 1      # patterns the compiler rejects are counted and skipped, not judged
                     continue
                 txt, ast = metas[ci + gi]
+                # the atoms of a string that is not chained are necessary for each of its occurrences (Atoms.tla, hook H3)
+                ats = g.get("atoms", [])
+                if ats and len({a["s"] for a in ats}) == 1 and len(ats) <= 1500:
+                    samples = []
+                    for _ in range(10):
+                        v = sample(r, ast, vals_of.get(ci + gi, [0x41, 0x7a]) + [0x0a, 0x7a])
+                        if v not in samples and 0 < len(v) <= 150: samples.append(v)
+                    records.append({"kind": "atoms", "sort": "re", "ast": ast, "ascii": True, "wide": False, "nocase": False, "dotall": True, "fullword": False,
+                                    "atoms": [{"b": a["b"], "bt": a["bt"]} for a in ats], "samples": [list(v) for v in samples]})
+                    owners.append((variant, txt, "atoms", ats[:8]))
                 for bi, b in enumerate(groups[ci + gi]["bufs"]):
                     if g["rets"][bi] != 0:
                         scan_errors[g["rets"][bi]] = scan_errors.get(g["rets"][bi], 0) + 1
@@ -468,8 +480,9 @@ def c03(res, tier, seed):
         metas.append((src, ast, flags))
     records, owners = [], []
     skipped = 0
+    fiber_stats = {}
     for ci in range(0, len(groups), 400):
-        run, per = func.run_rule_cases("asan", groups[ci:ci + 400], wd, "c03_%d" % ci)
+        run, per = func.run_rule_cases_fiber_retry("asan", groups[ci:ci + 400], wd, "c03_%d" % ci, fiber_stats, extra_lines_before=["opt atomhook 1"])
         if not run.complete:
             rp = yv.save_replay("C03", "crash_%d" % ci, {"crash": yv.crash_summary(run), "script": run.script_path})
             res.violation("driver did not complete: " + yv.crash_summary(run), rp)
@@ -480,6 +493,19 @@ def c03(res, tier, seed):
                 skipped += 1
                 continue
             src, ast, fl = metas[ci + gi]
+            # the atoms of an expression that is not chained are necessary for each of its occurrences (Atoms.tla, hook H3)
+            ats = g.get("atoms", [])
+            if ats and len({a["s"] for a in ats}) == 1 and len(ats) <= 1500:
+                samples = []
+                for _ in range(10):
+                    v = sample(r, ast, SAFE + [0x63, 0x32, 0x42])
+                    if fl["nocase"] and r.random() < 0.5:
+                        v = bytes((x ^ 0x20) if (65 <= x <= 90 or 97 <= x <= 122) and r.random() < 0.5 else x for x in v)
+                    for w in ([v] if fl["ascii"] else []) + ([b"".join(bytes([x, 0]) for x in v)] if fl["wide"] else []):
+                        if w not in samples and 0 < len(w) <= 150: samples.append(w)
+                records.append({"kind": "atoms", "sort": "re", "ast": ast, "ascii": fl["ascii"], "wide": fl["wide"], "nocase": fl["nocase"], "dotall": fl["dotall"], "fullword": False,
+                                "atoms": [{"b": a["b"], "bt": a["bt"]} for a in ats], "samples": [list(v) for v in samples[:14]]})
+                owners.append((src, "atoms", ats[:8]))
             for bi, b in enumerate(groups[ci + gi]["bufs"]):
                 if g["rets"][bi] != 0:
                     # a scan error on a small expression and buffer is not a verdict (D45 showed up as ERROR_TOO_MANY_RE_FIBERS)
@@ -493,6 +519,7 @@ def c03(res, tier, seed):
                 owners.append((src, b.hex(), sc))
                 res.count(1, (src, b) if sc else None)
     res.cov["parts"]["compile_or_scan_rejected"] = skipped
+    res.cov["parts"]["fiber_limit"] = fiber_stats
     judge_and_report(res, "C03", records, owners, lambda o: {"rule": o[0], "buf": o[1], "observed": o[2]}, wd, "c03_strings")
     for o in owners[:3]:
         res.sample({"rule": o[0], "buf": o[1], "obs": o[2]})
@@ -519,7 +546,7 @@ def c03(res, tier, seed):
         metas.append((src, ast, {"nocase": fi, "dotall": fs}, ops))
     records, owners = [], []
     for ci in range(0, len(groups), 400):
-        run, per = func.run_rule_cases("asan", groups[ci:ci + 400], wd, "c03m_%d" % ci)
+        run, per = func.run_rule_cases_fiber_retry("asan", groups[ci:ci + 400], wd, "c03m_%d" % ci, fiber_stats)
         if not run.complete:
             rp = yv.save_replay("C03", "crashm_%d" % ci, {"crash": yv.crash_summary(run), "script": run.script_path})
             res.violation("driver did not complete: " + yv.crash_summary(run), rp)
@@ -558,5 +585,5 @@ def c03(res, tier, seed):
     res.cov["rule"] = ("random regular expressions (depth <= 2: literals, escapes, classes incl. negated/ranges/\\w\\d\\s, dot, groups, alternation incl. empty "
                        "branch, * + ? {n,m} {n,} {,m} all-greedy or all-lazy, ^ $ \\b \\B, /i /s, nocase/wide/ascii/fullword) x planted buffers <= 120 bytes, and the "
                        "`matches` operator on an external string; judged by ReMatch.tla in TLC; non-trivial = at least one match / distinct operand")
-    res.assumptions += ["expressions rejected by the compiler and scans ending in a documented regex limit error are counted and skipped",
+    res.assumptions += ["expressions rejected by the compiler are counted and skipped; a scan that ends with ERROR_TOO_MANY_RE_FIBERS is repeated with a 256 times larger fiber pool and judged on that verdict (the production limit is a documented complexity limit); an error there too is a violation",
                         "greedy and lazy quantifiers have the same match sets; any matching length may be the reported one"]
